@@ -214,7 +214,8 @@ def run(ctx, rep):
                       'LayerResult fields %s, forwarded %s' % (lr_fields, sorted(used)))
         else:
             # keep / replace-metadata: existing data, Keep/Keep
-            conds = [cd for cd in conditions(f, c.bb, sl) if cd.kind == 'variant' and cd.enum in (STRAT, MIGR)]
+            conds = [cd for cd in conditions(f, c.bb, sl) + (conditions(c0.fn, c0.bb, sl) if c0.fn.path != f.path else [])
+                     if cd.kind == 'variant' and cd.enum in (STRAT, MIGR)]
             arm = next(iter(conds[-1].outcome)) if conds and len(conds[-1].outcome) == 1 else '?'
             subj = '%s/%s' % (subj, arm)
             rep.check(ex[0] == 'agg' and ex[2] == 'Keep' and sb[0] == 'agg' and sb[2] == 'Keep', 'R3', subj + '/switches', c.where(),
